@@ -1,6 +1,7 @@
 package main
 
 import (
+	"bytes"
 	"crypto/sha256"
 	"fmt"
 	"strings"
@@ -17,6 +18,7 @@ func init() {
 
 func runC04(cx *ctx) {
 	r := cx.rng
+	c04History(cx)
 	// files encrypted to a recipient whose public key differs from the identity's in ONE bit:
 	// the identity must not open them (every bit position; sampled in the quick tier, bit 255 and 0 always)
 	{
@@ -263,6 +265,76 @@ func runC04(cx *ctx) {
 					}
 					return ""
 				})
+		})
+	}
+}
+
+// c04History: what an identity answers must not depend on what happened before in the process. A file is first
+// decrypted with its RIGHT identity; then identities that match no recipient (near-miss passphrases, another key) are
+// tried on the SAME file, in the same process. Work factors of real files (14, 15) are used here — the other cases
+// keep to small ones for speed — so the model is not asked (its scrypt would take seconds): the oracle is the property.
+func c04History(cx *ctx) {
+	r := cx.rng
+	for rep := 0; rep < cx.n(3, 16); rep++ {
+		rr := r.Fork()
+		cx.ru.Do(func() *h.Case {
+			pw := []byte("correct-" + h.Hex(rr.Bytes(3)))
+			wf := 14 + rr.Intn(2)
+			var p *party
+			if rr.Intn(4) == 0 {
+				p = newX25519(rr)
+			} else {
+				p = scryptParty(pw, wf, 22)
+			}
+			pt := rr.Bytes(1 + rr.Intn(30))
+			file, eerr, _ := realEncryptFile(rr.Bytes(200), []age.Recipient{p.rec}, [][]byte{pt}, false)
+			if eerr != nil {
+				return &h.Case{Kind: "after-success", Impl: "encrypt-failed", NonTrivial: true, Note: eerr.Error()}
+			}
+			wrong := func() ([]age.Identity, []string) {
+				var ids []age.Identity
+				var ds []string
+				for k := 0; k < 1+rr.Intn(3); k++ {
+					if p.kind == "s" {
+						q := append([]byte(nil), pw...)
+						switch rr.Intn(3) {
+						case 0:
+							q[rr.Intn(len(q))] ^= 1
+						case 1:
+							q = []byte(strings.ToUpper(string(q)))
+						default:
+							q = q[:1+rr.Intn(len(q)-1)]
+						}
+						if string(q) == string(pw) {
+							q = append(q, 'x')
+						}
+						id, d := scryptIdentity(q, 22)
+						ids, ds = append(ids, id), append(ds, d)
+					} else {
+						o := newX25519(rr)
+						ids, ds = append(ids, o.id), append(ds, o.idD)
+					}
+				}
+				return ids, ds
+			}
+			ids0, _ := wrong()
+			_, before, _ := realDecryptFile(file, ids0, false)
+			out1, first, _ := realDecryptFile(file, []age.Identity{p.id}, false)
+			ids, _ := wrong()
+			out, class, consulted := realDecryptFile(file, ids, false)
+			or := ""
+			switch {
+			case !strings.HasPrefix(before, "err"):
+				or = "identities that match no recipient obtained a reader: " + before
+			case !strings.HasPrefix(first, "ok") || !bytes.Equal(out1, pt):
+				or = "the right identity did not decrypt the file: " + first
+			case strings.HasPrefix(class, "ok") || class == "err-with-reader" || len(out) > 0:
+				or = fmt.Sprintf("after the file had been decrypted once with the right identity, %d identities that match no recipient obtained a reader or plaintext (%s)", len(ids), class)
+			case class != fmt.Sprintf("err nomatch%d", len(ids)):
+				or = fmt.Sprintf("expected err nomatch%d after a successful decryption of the same file, got %s", len(ids), class)
+			}
+			return &h.Case{Kind: "after-success", Impl: fmt.Sprintf("%s | %s | %s consulted=%d", before, first, class, consulted), Oracle: or, NonTrivial: true,
+				Note: fmt.Sprintf("%s file (work factor %d for passphrases): wrong identities, then the right one, then %d wrong ones, same process", p.label, wf, len(ids))}
 		})
 	}
 }
